@@ -79,3 +79,13 @@ SEEDS = [
 ''', '''	_ = numClusters
 ''')]},
 ]
+
+# --- third session: stale signatures, stale GPT, FAT-area thresholds
+SEEDS += [
+ {"name": "c12-create-without-erasing-signatures", "properties": ["C12"], "expect": "C12-g|",
+  "edits": [e("disk/disk.go", "		if err := d.eraseSignatures(start, size); err != nil {\n			return nil, err\n		}\n", "")]},
+ {"name": "c12-erase-only-first-sector", "properties": ["C12"], "expect": "C12-g|",
+  "edits": [e("disk/disk.go", "const signatureArea = 36 * 1024", "const signatureArea = 512")]},
+ {"name": "c12-mbr-over-gpt-keeps-gpt-header", "properties": ["C12"], "expect": "C12-h|",
+  "edits": [e("disk/disk.go", "	if err := d.eraseStaleGPT(table, rwBackingFile); err != nil {\n		return err\n	}\n", "")]},
+]
